@@ -1,5 +1,6 @@
 import FuModel.Find.StartPoints
 import FuModel.Proofs.OutWalk
+import FuModel.Proofs.PureEval
 
 /-!
 # C18 — starting points: processed in order, spelled as given, isolated on error
@@ -219,4 +220,30 @@ example :
     let db : Node Attr := .dir [98] false true { lty := 'd', sty := 'd' } [.leaf [99] .plain { lty := 'f', sty := 'f' }]
     ([([97], some fa), ([109], none), ([98], some db)] : List (Bytes × Option (Node Attr))).flatMap
         (writtenRoot { follow := .never } (.typeIs 'f') (.pathOut [] [10])) = [97, 10, 98, 47, 99, 10] := by decide
+/-- **`find [-P|-H|-L] S1 S2 … EXPR` for any well-formed expression of tests** (`-name a -o ! -type d`,
+    parentheses, commas; no action, no option) — the whole run of the model with no hypothesis on
+    the trees: the tree builder yields `mt` (C01, C11), the default `-print` is added (C01), and the
+    output is the concatenation, in command-line order of the starting points and visit order inside
+    each, of `path ++ "\n"` for the reachable entries on which the expression is true.  Generalises
+    `C18_whole_run` from one test to test expressions (purity lemma `pure_M`: an expression of tests
+    leaves the state alone and its truth does not depend on it).  Proof: `whole_run_tests`. -/
+theorem C18_whole_run_expr (follow : Follow) (toks : List (Tok Prim)) (mt : M Prim)
+    (hb : buildTree toks = .ok mt) (ht : TestsOnly mt)
+    (roots : List (Bytes × Option (Node Attr))) (g0 : GS) :
+    ∃ res, run follow roots (toks.map Arg.tok) g0 = some res ∧
+      res.gs.out = g0.out ++ roots.flatMap (writtenRootM { follow := follow } mt (.pathOut [] [10])) ∧
+      ((∃ x ∈ roots, x.2 = none) → res.ret ≠ 0) :=
+  whole_run_tests follow toks mt hb ht roots g0
+
+/-- non-vacuity: `-name a -o ! -type d` is such an expression, and on `t/{a, b/{a,c}}` … -/
+example :
+    let toks : List (Tok Prim) := [.prim (.name [97]), .or_, .bang, .prim (.typeIs 'd')]
+    let mt : M Prim := .or [.prim (.name [97]), .not (.prim (.typeIs 'd'))]
+    let root : Node Attr := .dir [116] false true { lty := 'd', sty := 'd' }
+      [.dir [97] false true { lty := 'd', sty := 'd' } [], .dir [98] false true { lty := 'd', sty := 'd' } [.leaf [99] .plain { lty := 'f', sty := 'f' }]]
+    buildTree toks = .ok mt ∧ TestsOnly mt ∧
+      ([([116], some root)] : List (Bytes × Option (Node Attr))).flatMap (writtenRootM {} mt (.pathOut [] [10])) =
+        [116, 47, 97, 10, 116, 47, 98, 47, 99, 10] := by
+  intro toks mt root
+  exact ⟨by rfl, by simp [mt, TestsOnly, M.AllP, M.AllP.AllPs, isTestP], by decide⟩
 end FuModel.Find.Run
